@@ -167,6 +167,10 @@ func fuzzValue(r *rand.Rand, g *docGen, key string, depth int) any {
 	case "mediaType":
 		return pick(r, []string{"text/html", "text/markdown", "text/gemini", "text/plain", "text/html; charset=utf-8", "application/json", "bogus", ""})
 	case "name", "preferredUsername":
+		if r.Intn(25) == 0 {
+			/* a name of kilobytes: one word, or many */
+			return strings.Repeat(pick(r, []string{"x", "漢", "name ", "a.b "}), 500+r.Intn(2500))
+		}
 		return g.text(4)
 	case "published", "updated":
 		return pick(r, []string{"2024-01-02T03:04:05Z", "2020-05-06T07:08:09+02:00", "yesterday", "", "2999-01-01T00:00:00Z", "0001-01-01T00:00:00Z"})
@@ -174,9 +178,19 @@ func fuzzValue(r *rand.Rand, g *docGen, key string, depth int) any {
 		return pick(r, []any{nil, "https://h.example/x", "https://h.example/x", "https://127.0.0.1:1/self", "://", 5})
 	case "attributedTo", "audience", "actor":
 		actor := map[string]any{"type": "Person", "name": g.text(2), "preferredUsername": "u"}
+		if r.Intn(30) == 0 {
+			many := []any{}
+			for i := 20 + r.Intn(100); i > 0; i-- {
+				many = append(many, actor)
+			}
+			return many
+		}
 		return pick(r, []any{actor, []any{actor, deadRef, 7}, deadRef, []any{}})
 	case "attachment":
 		n := r.Intn(4)
+		if r.Intn(25) == 0 {
+			n = 50 + r.Intn(250) // hundreds of attachments: numbers of three digits
+		}
 		l := []any{}
 		for i := 0; i < n; i++ {
 			l = append(l, link())
